@@ -668,11 +668,11 @@ func L2RefetchScenario(seed int64, idx, k int, res *l2.Result) {
 			return false
 		}
 	}
-	// Configuration: while the fault is active the client gives up on a query
-	// after rf.Retries tries (2 s, 4 s); the default is restored when the
-	// peers turn honest.
+	// Configuration: the client gives up on a query after rf.Retries+1 tries
+	// (2 s, 4 s, 8 s) in this scenario.
 	defRetries := neutrino.QueryNumRetries
-	neutrino.QueryNumRetries = rf.Retries
+	neutrino.QueryNumRetries = rf.Retries + 1 // set before the client starts (one scenario per process: never restored)
+	_ = defRetries
 
 	if err := w.StartClient(nil, l2.ClientOpts{}); err != nil {
 		res.Inconcl("l2: client start failed")
@@ -741,9 +741,10 @@ func L2RefetchScenario(seed int64, idx, k int, res *l2.Result) {
 			return
 		}
 		since = f.end(w.Log)
-		neutrino.QueryNumRetries = defRetries
+		// (QueryNumRetries is left alone while the client runs: it is a
+		// package variable its goroutines read without synchronisation.)
 		nf, _, _ := f.stats()
-		x.tracef("the peers serve B honestly from now on (log position %d; %d refusals so far); QueryNumRetries back to %d", since, nf, defRetries)
+		x.tracef("the peers serve B honestly from now on (log position %d; %d refusals so far); QueryNumRetries stays %d", since, nf, rf.Retries+1)
 	}
 	// verdict after a watchdog expiry.
 	parkedOrInconclusive := func(what string) {
